@@ -53,7 +53,7 @@ def gen_ops(rng, length, prio_hi, panic_ok):
 
 
 def gen(rng, tier, which=("heap", "heapraw", "heapinit")):
-    cnt = 250 if tier == "quick" else 6000
+    cnt = 600 if tier == "quick" else 10000
     streams = []
     for tag, name in (("heap", STREAM_PQ), ("heapraw", STREAM_RAW)):
         if tag not in which:
